@@ -34,7 +34,8 @@ mut("qr-terminator-omitted", "qr/encoder.go", "for i := 0; i < 4 && bl.Len() < v
 mut("qr-pad-bytes-swapped", "qr/encoder.go", """		if i%2 == 0 {
 			bl.AddByte(236)""", """		if i%2 == 1 {
 			bl.AddByte(236)""", ["C01"])
-mut("qr-alignment-step-v32", "qr/versioninfo.go", "if x >= 0.5 {", "if x > 0.5 {", ["C01"])
+mut("qr-alignment-from-first", "qr/versioninfo.go", "result[i] = last - (step * (count - 1 - i))", "result[i] = first + (step * i)", ["C01"])
+mut("qr-alignment-round-equiv", "qr/versioninfo.go", "if x >= 0.5 {", "if x > 0.5 {", [], )  # equivalent: no version hits exactly .5
 mut("qr-capacity-offbyone", "qr/versioninfo.go", "if (vi.totalDataBytes() * 8) >= (dataBits + int(vi.charCountBits(mode))) {", "if (vi.totalDataBytes() * 8) > (dataBits + int(vi.charCountBits(mode))) {", ["C13"])
 mut("qr-auto-prefers-alnum", "qr/automatic.go", "bits, vi, _ := Numeric.getEncoder()(content, ecl)", "bits, vi, _ := AlphaNumeric.getEncoder()(content, ecl)", ["C13"])
 mut("qr-versioninfo-bit-v22", "qr/encoder.go", "22: []bool{false, true, false, true, true, false, true, false, false, false, true, true, false, false, true, false, false, true},", "22: []bool{false, true, false, true, true, false, true, false, false, false, true, true, false, false, true, false, true, true},", ["C01"])
@@ -48,8 +49,8 @@ mut("qr-interleave-short-blocks-last", "qr/blocks.go", "if len(bl[b].data) > i {
 mut("qr-format-level-swap-QH-mask7", "qr/encoder.go", "7: []bool{false, true, false, true, false, true, true, true, true, true, false, true, true, false, true},", "7: []bool{false, false, false, true, false, false, false, false, false, true, true, true, false, true, true},", ["C01", "C12"])
 
 # ---------------------------------------------------------------- DataMatrix
-mut("dm-corner3-condition", "datamatrix/codelayout.go", "(l.size.MatrixColumns()%8 == 4) {", "(l.size.MatrixColumns()%8 == 2) {", ["C02"])
-mut("dm-corner2-condition", "datamatrix/codelayout.go", "(l.size.MatrixColumns()%4 != 0) {", "(l.size.MatrixColumns()%4 == 2) {", ["C02"])
+mut("dm-corner1-bits-swapped", "datamatrix/codelayout.go", "\tl.Set(2, l.size.MatrixColumns()-1, value, 6)\n\tl.Set(3, l.size.MatrixColumns()-1, value, 7)\n}\n\nfunc (l *codeLayout) Corner2", "\tl.Set(2, l.size.MatrixColumns()-1, value, 7)\n\tl.Set(3, l.size.MatrixColumns()-1, value, 6)\n}\n\nfunc (l *codeLayout) Corner2", ["C02"])
+mut("dm-corner2-position", "datamatrix/codelayout.go", "\tl.Set(0, l.size.MatrixColumns()-4, value, 3)\n\tl.Set(0, l.size.MatrixColumns()-3, value, 4)", "\tl.Set(0, l.size.MatrixColumns()-3, value, 3)\n\tl.Set(0, l.size.MatrixColumns()-4, value, 4)", ["C02"])
 mut("dm-pad-constant", "datamatrix/encoder.go", "R := ((149 * (len(data) + 1)) % 253) + 1", "R := ((149 * (len(data) + 1)) % 254) + 1", ["C02"])
 mut("dm-pad-wrap", "datamatrix/encoder.go", "if tmp > 254 {", "if tmp > 255 {", ["C02"])
 mut("dm-144-blocks", "datamatrix/codesize.go", "if idx < 8 {", "if idx < 7 {", ["C02", "C10"])
@@ -57,13 +58,13 @@ mut("dm-size-table-ecc-88", "datamatrix/codesize.go", "&dmCodeSize{88, 88, 4, 4,
 mut("dm-capacity-offbyone", "datamatrix/encoder.go", "if s.DataCodewords() >= len(data) {", "if s.DataCodewords() > len(data) {", ["C13", "C10"])
 mut("dm-upper-shift-value", "datamatrix/encoder.go", "result = append(result, 235, c-127)", "result = append(result, 235, c-128)", ["C02"])
 mut("dm-digit-pair-boundary", "datamatrix/encoder.go", "if c >= '0' && c <= '9' && i < len(input) && input[i] >= '0' && input[i] <= '9' {", "if c >= '0' && c <= '9' && i < len(input) && input[i] >= '0' && input[i] < '9' {", ["C13", "C02"])
-mut("dm-clock-track-right", "datamatrix/codelayout.go", "for r := 1; r < l.size.Rows; r += 2 {", "for r := 1; r < l.size.Rows-2; r += 2 {", ["C02"])
+mut("dm-clock-track-right", "datamatrix/codelayout.go", "for r := 1; r < l.size.Rows; r += 2 {", "for r := 3; r < l.size.Rows; r += 2 {", ["C02"])
 mut("dm-ecc-stride", "datamatrix/errorcorrection.go", "for i := block; i < size.ErrorCorrectionCodewordsPerBlock()*size.BlockCount; i += size.BlockCount {", "for i := (block + 1) % size.BlockCount; i < size.ErrorCorrectionCodewordsPerBlock()*size.BlockCount; i += size.BlockCount {", ["C02"])
 
 # ---------------------------------------------------------------- Aztec
 mut("aztec-latch-digit-to-lower", "aztec/state.go", "mode_lower: (9 << 16) + (14 << 5) + 28,", "mode_lower: (9 << 16) + (14 << 5) + 29,", ["C03"])
 mut("aztec-bshift-threshold-62", "aztec/token.go", "if i == 0 || (i == 31 && bst.bShiftByteCnt <= 62) {", "if i == 0 || (i == 31 && bst.bShiftByteCnt <= 61) {", ["C03"])
-mut("aztec-bshift-len-31", "aztec/token.go", "if bst.bShiftByteCnt < 31 {", "if bst.bShiftByteCnt <= 31 {", ["C03"])
+mut("aztec-bshift-63", "aztec/token.go", "if bst.bShiftByteCnt > 62 {", "if bst.bShiftByteCnt > 63 {", ["C03"])
 mut("aztec-stuffing-mask", "aztec/encoder.go", "} else if (word & mask) == 0 {", "} else if (word&mask) == 0 && wordSize != 10 {", ["C03"])
 mut("aztec-compact-boundary", "aztec/encoder.go", "compact = i <= 3", "compact = i <= 2", ["C03", "C13"])
 mut("aztec-percent-ignored-explicit", "aztec/encoder.go", "if stuffedBits.Len()+eccBits > usableBitsInLayers {", "if stuffedBits.Len()+11 > usableBitsInLayers {", ["C12", "C10"])
@@ -100,12 +101,12 @@ mut("pdf-level-indicator", "pdf417/encoder.go", """		x = int(securityLevel) * 3
 	case 2:
 		x = columns - 1""", ["C04", "C12"])
 mut("pdf-padding-full-row", "pdf417/encoder.go", "if mod > 0 {\n\t\tpadCount := columns - mod", "if mod >= 0 {\n\t\tpadCount := columns - mod", ["C13", "C04"])
-mut("pdf-mincount-13", "pdf417/highlevel.go", "min_numeric_count = 13", "min_numeric_count = 45", ["C04"])
+mut("pdf-two-bytes-stay-text", "pdf417/highlevel.go", "if len(bytes) != 1 || encodingMode != encText {", "if len(bytes) > 2 || encodingMode != encText {", ["C04"])
 mut("pdf-mixed-table-entry", "pdf417/highlevel.go", "35, 45, 46, 36, 47, 43, 37, 42, 61, 94, 0, 32, 0, 0, 0,", "35, 45, 46, 36, 47, 43, 37, 61, 42, 94, 0, 32, 0, 0, 0,", ["C04"])
 mut("pdf-sixpack-shift", "pdf417/highlevel.go", "for (count - idx) >= 6 {", "for (count - idx) > 6 {", ["C04"])
 
 # ---------------------------------------------------------------- Code 128
-mut("c128-required-digits", "code128/encode.go", "requiredDigits := 4", "requiredDigits := 3", ["C05"])
+mut("c128-fnc2-in-B", "code128/encode.go", "\t\t\tcase FNC2:\n\t\t\t\tidx = 97\n\t\t\t\tbreak\n\t\t\tcase FNC3:\n\t\t\t\tidx = 96\n\t\t\t\tbreak\n\t\t\tcase FNC4:\n\t\t\t\tidx = 100", "\t\t\tcase FNC2:\n\t\t\t\tidx = 98\n\t\t\t\tbreak\n\t\t\tcase FNC3:\n\t\t\t\tidx = 96\n\t\t\t\tbreak\n\t\t\tcase FNC4:\n\t\t\t\tidx = 100", ["C05"])
 mut("c128-fnc4-in-A", "code128/encode.go", "idx = 101\n\t\t\t\tbreak\n\t\t\tdefault:\n\t\t\t\tidx = strings.IndexRune(aTable, content[i])", "idx = 100\n\t\t\t\tbreak\n\t\t\tdefault:\n\t\t\t\tidx = strings.IndexRune(aTable, content[i])", ["C05"])
 mut("c128-checksum-weight", "code128/encode.go", "sum += i * int(idx)", "sum += (i % 64) * int(idx)", ["C05", "C14"])
 mut("c128-pattern-entry-93", "code128/encodingtable.go", None, None, ["C05"])  # filled below
@@ -146,10 +147,10 @@ mut("rs-cache-truncated-on-smaller", "utils/reedsolomon.go", "\treturn rs.polyno
 mut("gf-divide-sign", "utils/galoisfield.go", "(gf.LogTbl[a]-gf.LogTbl[b]+(gf.Size-1))%(gf.Size-1)", "(gf.LogTbl[b]-gf.LogTbl[a]+(gf.Size-1))%(gf.Size-1)", ["C17"])
 mut("gfpoly-add-equal-degree", "utils/gfpoly.go", "if len(smallCoeff) > len(largeCoeff) {", "if len(smallCoeff) >= len(largeCoeff) && len(smallCoeff) > 37 {", ["C17"])
 mut("bitlist-grow-no-copy-1024", "utils/bitlist.go", "\tnd := make([]int32, len(bl.data)+growBy)\n\tcopy(nd, bl.data)", "\tnd := make([]int32, len(bl.data)+growBy)\n\tif growBy == 1024 && len(bl.data) > 4096 {\n\t\tcopy(nd[1:], bl.data[1:])\n\t} else {\n\t\tcopy(nd, bl.data)\n\t}", ["C18"])
-mut("bitlist-getbytes-shift", "utils/bitlist.go", "shift := (3 - (i % 4)) * 8", "shift := (3 - (i % 4)) * 8 % 31", ["C18"])
+mut("bitlist-iterate-drops-partial", "utils/bitlist.go", "\t\tfor c > 0 {\n\t\t\tres <- byte", "\t\tfor c > 4 {\n\t\t\tres <- byte", ["C18"])
 mut("bitlist-setbit-clear", "utils/bitlist.go", "bl.data[itmIndex] = bl.data[itmIndex] & ^(1 << uint(itmBitShift))", "if itmBitShift != 0 {\n\t\t\tbl.data[itmIndex] = bl.data[itmIndex] & ^(1 << uint(itmBitShift))\n\t\t}", ["C18"])
 mut("qr-producer-not-terminated", "qr/alphanumeric.go", "\t\t\tif idx < 0 {\n\t\t\t\tbreak\n\t\t\t}\n", "", ["C16", "C10"])
-mut("qr-package-level-scratch", "qr/blocks.go", "\tresult := make([]byte, 0, resultLen)", "\tif cap(interleaveScratch) < resultLen {\n\t\tinterleaveScratch = make([]byte, 0, resultLen)\n\t}\n\tresult := interleaveScratch[:0]", ["C15", "C16"])
+mut("qr-package-level-scratch", "qr/blocks.go", "\tresult := make([]byte, 0, resultLen)", "\tif cap(interleaveScratch) < int(resultLen) {\n\t\tinterleaveScratch = make([]byte, 0, int(resultLen))\n\t}\n\tresult := interleaveScratch[:0]", ["C16"])
 mut("aztec-content-alias", "aztec/encoder.go", "code.content = append([]byte(nil), data...)", "code.content = data", ["C15"])
 mut("c39-checksum-map-order", "code39/encoder.go", "if v.value == sum {", "if v.value == sum || (sum == 0 && v.value == -1) {", ["C07", "C15"])
 
@@ -169,7 +170,7 @@ def fixups():
             m["extra"] = ("qr/blocks.go", "type blockList []*block\n", "type blockList []*block\n\nvar interleaveScratch []byte\n")
 
 def run(cmd, cwd=None, env=ENV, timeout=3600):
-    return subprocess.run(cmd, cwd=cwd, env=env, shell=isinstance(cmd, str), capture_output=True, text=True, timeout=timeout)
+    return subprocess.run(cmd, cwd=cwd, env=env, shell=isinstance(cmd, str), capture_output=True, text=True, errors="replace", timeout=timeout)
 
 def evaluate(m, tier):
     h = hashlib.md5(m["name"].encode()).hexdigest()[:10]
@@ -217,7 +218,7 @@ def main():
     if args and args[0] in ("quick", "thorough"):
         tier = args.pop(0)
     fixups()
-    sel = [m for m in M if not args or any(a in m["name"] for a in args)]
+    sel = [m for m in M if m["props"] and (not args or any(a in m["name"] for a in args))]
     out = []
     with cf.ThreadPoolExecutor(max_workers=3) as ex:
         for r in ex.map(lambda m: evaluate(m, tier), sel):
